@@ -144,6 +144,17 @@ def parse_written(data):
     return [2, Bytes(data)]
 
 
+EVENT_CPU_LIMIT = 20.0
+
+
+class EventHang(BaseException):
+    """one driver event used more than EVENT_CPU_LIMIT seconds of CPU: args = (events so far, configuration)"""
+
+
+def _hang_alarm(signum, frame):
+    raise EventHang()
+
+
 class Driver(object):
     """one real peering on a fresh simulated reactor"""
 
@@ -280,11 +291,24 @@ class Driver(object):
         en = self.enabled(e)
         n0 = len(self.sim.log)
         if en:
+            self.history = getattr(self, 'history', [])
+            self.history.append(e)
+            # an event that does not return (an endless loop in the receive path) must end as a report, not hang
+            # the check: CPU-time alarm, raised as a BaseException so that no catch-all of yabgp swallows it
+            import signal
+            old = signal.signal(signal.SIGVTALRM, _hang_alarm)
+            signal.setitimer(signal.ITIMER_VIRTUAL, EVENT_CPU_LIMIT)
             try:
-                self._do(e)
-            except Exception:
-                self.exc += 1
-                self.sim.log.append(('exc',))
+                try:
+                    self._do(e)
+                except Exception:
+                    self.exc += 1
+                    self.sim.log.append(('exc',))
+            except EventHang:
+                raise EventHang(list(self.history), dict(self.kw))
+            finally:
+                signal.setitimer(signal.ITIMER_VIRTUAL, 0)
+                signal.signal(signal.SIGVTALRM, old)
         outs = []
         for item in self.sim.log[n0:]:
             if item[0] == 'connect':
